@@ -22,7 +22,7 @@ def pSignedTerm (s : String) : Option (Int × Nat) :=
   | [a, b] => do let a ← a.toInt?; let b ← b.toNat?; pure (a, b)
   | _ => none
 
-def handleC09 (f : List String) : Res :=
+def handleC09core (sint : Option String) (f : List String) : Res :=
   match f with
   | [ms, xs, Ks, Ts, terms, dict, unch] =>
     -- a term with d ≤ 0 is a violation of "d > 0" as it stands (the model only produces naturals)
@@ -41,6 +41,14 @@ def handleC09 (f : List String) : Res :=
             | some l => showList (fun (t : AC.GoPrim.GTerm) => s!"{t.D}:{t.E}") l | none => "panic") terms r
         else r
       let r := cmp "dictionary" (showInts (dictionary model)) dict r
+      -- `Sum.Dictionary` and `Sum.Int` as TRANSLATED from dict.go, run on the implementation's own terms
+      let implG : List AC.GoPrim.GTerm := impl.map fun t => ⟨(t.d : Int), t.e⟩
+      let r := cmp "translated-dictionary" (match AC.Gen.Program.dictSumDictionary implG with
+            | some l => showInts l | none => "panic") dict r
+      let r := match sint with
+        | some si => cmp "translated-sum-int" (match AC.Gen.Program.dictSumInt implG with
+            | some v => toString v | none => "panic") si r
+        | none => r
       let r := specIf "target-unmodified" (unch == "1") r
       let r := specIf "sum-exact" (value impl == x) r
       let r := specIf "d-positive" (impl.all fun t => 0 < t.d) r
@@ -60,5 +68,12 @@ def handleC09 (f : List String) : Res :=
     | _, _, _, _, _, _ => bad "c09-parse"
   | _ => bad "c09-arity"
 where b01' (b : Bool) : String := if b then "1" else "0"
+
+/-- the eighth field (the implementation's `Sum.Int()`) is optional: replays recorded before it existed
+    have seven -/
+def handleC09 (f : List String) : Res :=
+  match f with
+  | [a, b, c, d, e, g, h, si] => handleC09core (some si) [a, b, c, d, e, g, h]
+  | _ => handleC09core none f
 
 end AC.Drv
